@@ -127,8 +127,27 @@ def replay_and_judge(chk, vectors, chunk_size=1200):
     return obs, bad
 
 
-def report(chk, bad, limit=6):
-    """confirm (re-run just those vectors) and record; at most `limit` per reason class."""
+def in_batch_only(chk, batch):
+    """rejections of a batch run (several goroutines) that are accepted when each set is triangulated in a
+    process of its own."""
+    _, b3 = replay_and_judge(chk, batch, chunk_size=400)
+    b3 = b3[:12]
+    if not b3:
+        return []
+    obs = []
+    for e, _ in b3:
+        out = chk.vh(["c20-random"], stdin=json.dumps(vec_of(e)) + "\n", timeout=600)
+        obs += [json.loads(x) for x in out.splitlines() if x.strip()]
+    alone = set(vkey(vec_of(e)) for e, _ in chk.validate("DelTrace", obs, timeout=600))
+    return [(e, w) for e, w in b3 if vkey(vec_of(e)) not in alone]
+
+
+def report(chk, bad, limit=6, batch=None):
+    """confirm (re-run just those vectors) and record; at most `limit` per reason class.
+    `batch`: the vectors of the stage the rejections come from. The harness triangulates a batch in several
+    goroutines; a rejection that does not reproduce alone is re-run within its batch (twice): a call that
+    returns a wrong triangulation only while other calls are in flight has still returned a wrong
+    triangulation for that set."""
     per = {}
     todo = []
     for e, why in bad:
@@ -143,6 +162,17 @@ def report(chk, bad, limit=6):
     for e, why in todo:
         k = vkey(vec_of(e)) + "|" + e["ev"]
         if again.get(k) != why:
+            if batch:
+                runs = [in_batch_only(chk, batch) for _ in range(2)]
+                if all(runs):
+                    e3, w3 = runs[0][0]
+                    chk.violation("in-batch-only|%s" % w3.split(";")[0],
+                                  "Delaunay2d returns a rejected triangulation only while other Delaunay2d calls are in flight: "
+                                  "in 3 of 3 runs of the batch of %d random sets (6 goroutines) some sets were rejected that are "
+                                  "accepted when triangulated alone (%d and %d sets in the re-runs); first: %s"
+                                  % (len(batch), len(runs[0]), len(runs[1]), describe(e3, w3)),
+                                  dict(batch=batch, why=w3))
+                    return per
             raise vlib.Inconclusive("rejected observation did not reproduce: %s (%s, then %s)" % (k, why, again.get(k)))
         chk.violation(key_of(e, why), describe(e, why), dict(vector=vec_of(e), why=why))
     return per
@@ -166,6 +196,12 @@ def run(chk, replay):
     ]
     if replay:
         r = replay["replay"]
+        if "batch" in r:
+            bad = in_batch_only(chk, r["batch"])
+            if bad:
+                e, why = bad[0]
+                chk.violation("in-batch-only|%s" % why.split(";")[0], describe(e, why), dict(batch=r["batch"], why=why))
+            return
         obs, bad = replay_and_judge(chk, [r["vector"]])
         chk.traces += len(obs)
         for e, why in bad:
@@ -273,9 +309,10 @@ def run(chk, replay):
 
     # ---- T: random real point sets
     nr = 108 if quick else 648
-    obs, bad = replay_and_judge(chk, [dict(rnd=i, seed=chk.seed) for i in range(1, nr + 1)], chunk_size=400)
+    rbatch = [dict(rnd=i, seed=chk.seed) for i in range(1, nr + 1)]
+    obs, bad = replay_and_judge(chk, rbatch, chunk_size=400)
     chk.traces += len(obs)
-    add_counts(rejected, report(chk, bad))
+    add_counts(rejected, report(chk, bad, batch=rbatch))
     amb = sum(1 for o in obs if o["duppt"] or o["hcol"] or o["f"]["oncirc"] or o["s"]["oncirc"]
               or o["f"]["minmargin"] < 1000 or o["s"]["minmargin"] < 1000)
     fams = {}
